@@ -48,11 +48,12 @@ func H05Loop() {
 	in := make(chan extractor.InputBatch, 1)
 	go func() {
 		for i := 0; i < nb; i++ {
+			if i == nb-1 && !zz.Symbolic() {
+				// native replay: let the last batch arrive and the input end while the first periodic render
+				// (100 ms tick, ~30 ms long) is in progress
+				time.Sleep(115 * time.Millisecond)
+			}
 			in <- extractor.InputBatch{Batch: []extractor.BString{extractor.BString("x")}, Source: "s", BatchStart: uint64(i + 1)}
-		}
-		if !zz.Symbolic() {
-			// native replay: let the input end while the first periodic render (100 ms tick, ~30 ms long) is in progress
-			time.Sleep(115 * time.Millisecond)
 		}
 		close(in)
 	}()
